@@ -38,6 +38,11 @@ def run(ctx) -> None:
         for meth, track, kind_ in (("aspirate", "remove", "A"), ("dispense", "add", "D")):
             ctx.reuse("C03.tracked-amount", c01.pair_ad, dev, meth, track, kind_)
     ctx.reuse("C03.tracked-amount", c01.pair_distribute, "C01.pair-distribute")
+    # ... and checks every well it is handed: no sequence zipped into the update loop can cut it short
+    from . import c04
+
+    for kind in ("add", "remove"):
+        ctx.reuse("C03.tracking-rejects", c04.length_guard, kind)
     ctx.reuse("C03.step-guard", c06.multi_disp)
     ctx.reuse("C03.step-guard", c06.config)
     from . import c13
@@ -98,7 +103,8 @@ def check_before_emit(ctx, rule: str = "C03.check-before-emit") -> None:
             for n in fv.cfg.nodes:
                 effs = ctx.E.node_effects(fv, n)
                 kinds = {e.arg for e in effs if e.kind == "EMIT"}
-                if kinds & (PIPETTING | {"?"}) and not any(c.node == n.id for c in track):
+                # every record of the step counts - also its comment: a refused step leaves nothing behind
+                if kinds and not any(c.node == n.id for c in track):
                     emit_nodes.append(n.id)
             if not emit_nodes:
                 continue
